@@ -49,14 +49,15 @@ Proof.
   assert (N1 : 0 <= (no + nc) * r) by nra.
   assert (N2 : (no + nc) * r <= no + nc) by nra.
   pose proof thr_pos as T.
-  destruct (Qlt_le_dec (a + (- (1) * nc + (no + nc) * r)) thr); cbn [fst snd]; repeat split; lra.
+  destruct (Qlt_le_dec (a + (- (1) * nc + (no + nc) * r)) thr); cbn [fst snd]; rewrite !Qred_correct;
+    repeat split; lra.
 Qed.
 
 Section Lines.
   Variable P : cdm_par.
   Hypothesis gam_range : forall i k, 0 <= gam P i k.
-  Hypothesis pw_range : forall a, thr < a -> 0 <= pw P a.
-  Hypothesis pcap_range : forall k a, 0 <= pcap P k a <= 1.
+  Hypothesis pw_range : forall i k a, thr < a -> 0 <= pw P i k a.
+  Hypothesis pcap_range : forall i k a, 0 <= pcap P i k a <= 1.
   Hypothesis rel_range : forall k, 0 <= rel P k <= 1.
 
   Lemma cdm_species_ok : forall nos i k a, 0 <= a -> nonneg nos ->
@@ -67,8 +68,8 @@ Section Lines.
     induction nos as [|no rest IH]; intros i k a Ha Hn.
     - simpl. repeat split; try assumption; try lra.
     - inversion Hn; subst. cbn [cdm_species].
-      pose proof (cdm_step_ok (gam P i k) (pw P a) (pcap P k a) (rel P k) a no
-                    (gam_range i k) (pw_range a) (pcap_range k a) (rel_range k) Ha H1) as (S1 & S2 & S3 & _).
+      pose proof (cdm_step_ok (gam P i k) (pw P i k a) (pcap P i k a) (rel P k) a no
+                    (gam_range i k) (pw_range i k a) (pcap_range i k a) (rel_range k) Ha H1) as (S1 & S2 & S3 & _).
       destruct (cdm_step _ _ _ _ a no) as [a1 no1]. cbn [fst snd] in *.
       specialize (IH i (S k) a1 S1 H2). destruct (cdm_species P i (S k) a1 rest) as [a2 rest'].
       cbn [fst snd qsum length] in *. destruct IH as (I1 & I2 & I3 & I4).
@@ -136,6 +137,6 @@ Proof.
     { destruct inj; [assumption|]. change 0 with (inject_Z 0). rewrite <- Zle_Qle. lia. }
     nra.
   - intros; simpl; lra.
-  - intros k a. simpl. apply (nth_range (fun x => 0 <= x <= 1)); [lra | exact Hp].
+  - intros i k a. simpl. apply (nth_range (fun x => 0 <= x <= 1)); [lra | exact Hp].
   - intros k. simpl. apply (nth_range (fun x => 0 <= x <= 1)); [lra | exact Hr].
 Qed.
